@@ -167,6 +167,64 @@ Theorem C09_interval_tick : forall iv now,
 Proof. exact tick_aligned. Qed.
 Print Assumptions C09_interval_tick.
 
+(* WAKE AFTER EVERY POLL.  One turn of the block_on loop — poll_with(Some(ZERO))
+   when tasks remain, poll() otherwise — wakes the wheel with the clock value
+   read after the driver returned, whatever the driver answered (a completion,
+   TimedOut, Interrupted); the answer and the branch only choose the timeout
+   handed to the driver. *)
+Theorem C09_wake_after_every_poll : forall rem ans now1 now2 w,
+  ans <> DError ->
+  loop_iter rem ans now1 now2 w =
+    Ok (if rem then Some 0 else min_timeout now1 w, fst (wake now2 w), snd (wake now2 w)) /\
+  poll_with ans now2 w = Ok (wake now2 w).
+Proof. exact wake_after_every_poll. Qed.
+Print Assumptions C09_wake_after_every_poll.
+
+(* so a loop of any length is, for the wheel, the program of its wakes ... *)
+Theorem C09_loop_is_its_wakes : forall ts w wss w',
+  loop_run w ts = Ok (wss, w') ->
+  run w (turn_ops ts) = Ok (map UWoken wss, w').
+Proof. exact loop_run_as_ops. Qed.
+Print Assumptions C09_loop_is_its_wakes.
+
+(* ... and ALWAYS FIRES does not depend on the driver's answers: after any
+   number of turns before the deadline — every one of which may have found an
+   I/O completion, so that the driver never reports TimedOut — the first turn
+   whose clock value has reached the deadline completes the timer and invokes
+   its waker exactly once. *)
+Theorem C09_always_fires_any_driver_answer : forall ts w wss w1 k s0 rem ans n1 n2,
+  wf w -> In (k, s0) (wmap w) ->
+  loop_run w ts = Ok (wss, w1) ->
+  (forall t, In t ts -> snd t < kdl k) ->
+  ans <> DError -> kdl k <= n2 ->
+  exists t ws w2,
+    loop_iter rem ans n1 n2 w1 = Ok (t, ws, w2) /\
+    is_completed k w2 = true /\
+    exists l1 l2,
+      filter (due n2) (wmap w1) = l1 ++ (k, s0) :: l2 /\
+      ~ In k (keys_of l1) /\ ~ In k (keys_of l2) /\
+      ws = wakers_of l1 ++ opt_list s0 ++ wakers_of l2.
+Proof. exact always_fires_any_answer. Qed.
+Print Assumptions C09_always_fires_any_driver_answer.
+
+(* INTERVAL, FIRST TICK CANCELLED.  [iv_run] lists the instants the successive
+   tick() calls sleep until; a call may be dropped while its sleep is pending
+   (completed = false), which leaves the "first tick delivered" flag alone.
+   [clocked]: once a tick has completed the clock has reached start (never-early).
+   Then every call sleeps until start + k*period, and every call up to and
+   including the first one that completes sleeps until start itself — however
+   many first ticks were cancelled before. *)
+Theorem C09_interval_first_tick_cancel_safe : forall iv evs,
+  0 < iperiod iv < DUR_LIMIT -> first_ticked iv = false ->
+  clocked false (istart iv) evs ->
+  Forall (fun d => exists k, 0 <= k /\ d = istart iv + k * iperiod iv) (iv_run iv evs) /\
+  (forall pre now c post,
+     evs = pre ++ IvTick now c :: post ->
+     (forall e, In e pre -> iv_completed e = false) ->
+     firstn (S (length pre)) (iv_run iv evs) = repeat (istart iv) (S (length pre))).
+Proof. exact interval_first_tick_cancel_safe. Qed.
+Print Assumptions C09_interval_first_tick_cancel_safe.
+
 (* ---------------------------------------------------------------------- *)
 (* non-vacuity: concrete non-trivial states meeting the hypotheses          *)
 
@@ -258,3 +316,35 @@ Example C09_fixed_interval_cast_witness :
   old_next mod period <> 0 /\ interval_next 0 period now mod period = 0.
 Proof. vm_compute. split; [discriminate|reflexivity]. Qed.
 Print Assumptions C09_fixed_interval_cast_witness.
+
+(* busy loop: three turns that all find a completion (DOk, tasks remaining, so
+   the driver is polled with a zero timeout and never reports TimedOut) pass
+   before the deadline 50; the next one, at 50, fires both timers of that
+   deadline *)
+Example C09_nonvacuous_busy_loop :
+  exists wss w1,
+    loop_run ex_wheel [(true, DOk, 10, 11); (true, DOk, 20, 21); (true, DInterrupted, 30, 49)]
+      = Ok (wss, w1) /\ w1 = ex_wheel /\
+    loop_iter true DOk 49 50 w1 = Ok (Some 0, [7%N; 8%N], mkwheel 3 [(mkkey 90 2, Some 9%N)]) /\
+    loop_iter false DTimedOut 49 50 w1 = Ok (Some 1, [7%N; 8%N], mkwheel 3 [(mkkey 90 2, Some 9%N)]).
+Proof. vm_compute. eexists _, _. repeat split. Qed.
+Print Assumptions C09_nonvacuous_busy_loop.
+
+(* two first ticks cancelled before start = 1000 (clock 10, 400), then ticks
+   awaited: 1000, 1250, 1500 *)
+Example C09_nonvacuous_first_tick_cancel :
+  clocked false 1000
+    [IvTick 10 false; IvTick 400 false; IvTick 700 true; IvTick 1003 true; IvTick 1260 true] /\
+  iv_run (mkinterval false 1000 250)
+    [IvTick 10 false; IvTick 400 false; IvTick 700 true; IvTick 1003 true; IvTick 1260 true]
+  = [1000; 1000; 1000; 1250; 1500].
+Proof. vm_compute. repeat split; intros; try discriminate; try lia. Qed.
+Print Assumptions C09_nonvacuous_first_tick_cancel.
+
+(* why the flag may only be set when the first sleep is over: set earlier, a
+   cancelled first tick would make the next one sleep until now + period *)
+Example C09_interval_flag_order_matters :
+  tick_deadline (tick_done (mkinterval false 1000 250)) 400 = 650 /\
+  tick_deadline (mkinterval false 1000 250) 400 = 1000.
+Proof. vm_compute. split; reflexivity. Qed.
+Print Assumptions C09_interval_flag_order_matters.
